@@ -74,6 +74,15 @@ def check_shape(chk, shape, rng, workdir, results_override=None):
         chk.violation("save/load raised %r for %s" % (ex, shape), sc, klass={"check": "exception"})
         return
     try:
+        compare_loaded(chk, ds, cfg, results, x, y, zl, shape, sc)
+    finally:
+        ds.close()
+        os.remove(path)
+
+
+def compare_loaded(chk, ds, cfg, results, x, y, zl, shape, sc):
+    """a loaded dataset against the result set that was saved: labels, coordinates, every field bit for bit, metadata, met"""
+    if True:
         names = [t.name for t in cfg.towers]
         ns = shape["ns"]
         if list(ds["tower"].values) != names:
@@ -110,9 +119,67 @@ def check_shape(chk, shape, rng, workdir, results_override=None):
                         return chk.violation("absent %s stored as %r, expected NaN" % (var, got), sc, klass={"check": "met"})
                 elif got != want:
                     return chk.violation("%s at step %d is %r, expected %r" % (var, t, got, want), sc, klass={"check": "met"})
+    return False
+
+
+GEN_SHAPES = [  # result sets of different shapes and labels, one per generation of a save/load history
+    {"nt": 2, "ns": 3, "nl": 0, "ts": "label", "forcing": "ustar"}, {"nt": 1, "ns": 2, "nl": 2, "ts": "index", "forcing": "z0"},
+    {"nt": 3, "ns": 1, "nl": 1, "ts": "label", "forcing": "ustar"}, {"nt": 2, "ns": 3, "nl": 0, "ts": "label", "forcing": "ustar"},
+    {"nt": 2, "ns": 2, "nl": 3, "ts": "index", "forcing": "ustar"},
+]
+
+
+def replay_history(chk, hist, rng, workdir, idx):
+    """one behaviour of spec/NetcdfFiles.tla on the real functions: a load returns what was last saved under that path"""
+    from bldfm.io import save_footprints_to_netcdf, load_footprints_from_netcdf
+
+    paths = {}
+    saved = {}
+    n = 0
+    brief = [(o["op"], o["path"]) for o in hist]
+    try:
+        for k, o in enumerate(hist):
+            path = paths.setdefault(o["path"], os.path.join(workdir, "hist_%d_%d.nc" % (idx, o["path"])))
+            sc = {"kind": "netcdf_history", "history": brief, "failed_at": k}
+            if o["op"] == "save":
+                shape = GEN_SHAPES[(o["gen"] - 1) % len(GEN_SHAPES)]
+                cfg, results, (x, y, zl) = build(shape, rng)
+                try:
+                    save_footprints_to_netcdf(results, cfg, path)
+                except Exception as ex:
+                    chk.violation("save number %d of the history %s raised %r" % (o["gen"], brief, ex), sc, klass={"check": "history_exception"})
+                    return n
+                saved[o["path"]] = (cfg, results, x, y, zl, shape)
+                continue
+            if o["gen"] < 0:
+                try:
+                    load_footprints_from_netcdf(path).close()
+                    chk.drift_note("loading a path nothing was saved to did not raise (history %s)" % brief)
+                except Exception:
+                    pass
+                continue
+            try:
+                ds = load_footprints_from_netcdf(path)
+            except Exception as ex:
+                chk.violation("load at step %d of the history %s raised %r" % (k, brief, ex), sc, klass={"check": "history_exception"})
+                return n
+            n += 1
+            before = len(chk.violations)
+            try:
+                cfg, results, x, y, zl, shape = saved[o["path"]]
+                compare_loaded(chk, ds, cfg, results, x, y, zl, shape, sc)
+            except Exception as ex:
+                chk.violation("the dataset loaded at step %d of the history %s is not the set last saved under that path (%r)" % (k, brief, ex), sc, klass={"check": "history_stale"})
+            finally:
+                ds.close()
+            if len(chk.violations) > before:
+                chk.violations[-1]["what"] = "history %s, load at step %d: " % (brief, k) + chk.violations[-1]["what"]
+                return n
     finally:
-        ds.close()
-        os.remove(path)
+        for pth in paths.values():
+            if os.path.exists(pth):
+                os.remove(pth)
+    return n
 
 
 def main():
@@ -135,6 +202,29 @@ def main():
         chk.case(json.dumps(s, sort_keys=True), nontrivial=s["nt"] * s["ns"] > 1)
         check_shape(chk, s, rng, work)
     chk.traces = len(shapes)
+    # histories of saves and loads over paths in one process (spec/NetcdfFiles.tla)
+    rf = run_tlc("NetcdfFiles", "MC_NetcdfFiles", workers=4)
+    chk.add_tlc("MC_NetcdfFiles", rf)
+    if not rf.ok:
+        raise MachineryError("MC_NetcdfFiles: %s violated" % rf.violated)
+    if t == "thorough":
+        rn = run_tlc("NetcdfFiles", "MC_NetcdfFiles_neg_memo", workers=4)
+        chk.add_tlc("MC_NetcdfFiles_neg_memo", rn, expect_violation=True)
+        if rn.ok:
+            raise MachineryError("negative control MC_NetcdfFiles_neg_memo not violated")
+    hists = sorted((e["hist"] for e in rf.emitted), key=lambda h: json.dumps(h, sort_keys=True))
+    hists = [h for h in hists if any(o["op"] == "load" and o["gen"] > 0 for o in h)]
+    if t == "quick":
+        hists = [hists[i] for i in sorted(int(x) for x in rng.choice(len(hists), size=min(len(hists), 120), replace=False))]
+    nl_ = 0
+    for i, h in enumerate(hists):
+        chk.case(json.dumps(h, sort_keys=True))
+        nl_ += replay_history(chk, h, rng, work, i)
+        if len(chk.violations) > 30:
+            break
+    chk.extra["save_load_histories"] = len(hists)
+    chk.extra["history_loads_compared"] = nl_
+    chk.traces += len(hists)
     # solver-produced results (covering subset): drivers' output goes through the same path
     from bldfm import run_bldfm_multitower
     from . import check_drivers as cd
